@@ -114,8 +114,13 @@ def _div_like(sx, k, w, va, vb, op):
         r = sym.pymod(va, vb)
     else:
         r = sym.truncrem(va, vb)
-    # results that do not fit the documented width overflow in hardware; the
-    # fold may reject them (compile-time error) -- outside the value contract
+    if op == "truncdiv":
+        # the one quotient that does not fit (minimum / -1) wraps in hardware (numeric_std "/" returns the operand
+        # width): the fold may refuse it (compile-time error), but if it yields a value it is the wrapped one
+        if not sx.branch(fits(k, w, r)):
+            sx.may_reject_here(AssertionError)
+        return mk(k, w, r)
+    # mod / rem results that do not fit the documented width: the fold may reject them -- outside the value contract
     sx.domain(fits(k, w, r))
     return mk(k, w, r)
 
